@@ -418,20 +418,30 @@ def _cluster_ids(x, tol):
 
 
 def multiset_distance(M1, M2, tols):
-    """Largest column-wise mismatch (in units of tol) between two multisets of rows after a
-    tolerant lexicographic sort; 0 rows differ -> inf."""
+    """Largest mismatch (in units of the column tolerances) of the best pairing of two
+    multisets of rows (z, rho, w).
+
+    z and w take few, well separated values (layers of the axial rule, orbits of the disk
+    rule): they are clustered on the union of both tables, so partners within tolerance
+    always share a cluster; inside each (z, w) cluster the rows are paired in the order of
+    rho, which is the optimal pairing in one dimension.  Different cluster populations -> inf.
+    """
     if M1.shape != M2.shape:
         return float('inf')
-
-    def order(M):
-        keys = [_cluster_ids(np.asarray(M[:, k], dtype=np.float64), float(tols[k]))
-                for k in range(M.shape[1])]
-        return np.lexsort(tuple(reversed(keys)))
-
-    A = M1[order(M1)]
-    B = M2[order(M2)]
-    d = np.abs(A - B) / np.asarray(tols, dtype=LD)[None, :]
-    return float(np.max(d)) if d.size else 0.0
+    n = M1.shape[0]
+    if n == 0:
+        return 0.0
+    U = np.concatenate([M1, M2]).astype(np.float64)
+    kz = _cluster_ids(U[:, 0], float(tols[0]))
+    kw = _cluster_ids(U[:, 2], float(tols[2]))
+    key = kz * (int(kw.max()) + 1) + kw
+    k1, k2 = key[:n], key[n:]
+    if not np.array_equal(np.sort(k1), np.sort(k2)):
+        return float('inf')
+    o1 = np.lexsort((np.asarray(M1[:, 1], dtype=np.float64), k1))
+    o2 = np.lexsort((np.asarray(M2[:, 1], dtype=np.float64), k2))
+    d = np.abs(M1[o1] - M2[o2]) / np.asarray(tols, dtype=LD)[None, :]
+    return float(np.max(d))
 
 
 def node_table(g: Geom, pts, w):
